@@ -566,7 +566,11 @@ impl TableStore {
         }
         let merged_table = self.save_table(merged_table)?;
         for table in &tables[1..] {
-            self.remove_head(table);
+            // If the other heads add nothing that one head doesn't already
+            // have, the merged table is that head itself.
+            if table.name != merged_table.name {
+                self.remove_head(table);
+            }
         }
         Ok((merged_table, lock))
     }
